@@ -439,8 +439,39 @@ def _check_binding(ms, desc_cls, request, numeric, index, b, vars_, query, body_
     return out
 
 
+def loosely_applies(b, request):
+    """All variables set and the EXPANDED path is an instance of the template as a whole although some variable does not
+    match its own sub-template (what validate() on the whole uri accepts): the crosses-segments class."""
+    vals = {n: get_path(request, n) for n in b["tmpl"]["vars"]}
+    if not all(isinstance(v, str) and v for v in vals.values()) or spec_applies(b["tmpl"], request):
+        return False
+    segs = []
+    for kind, text, var in b["tmpl"]["segs"]:
+        if var is None:
+            segs.append(text)
+        elif not segs or segs[-1] != ("VAR", var):
+            segs.append(("VAR", var))
+    path = "/" + "/".join(urllib.parse.quote(vals[x[1]], safe="/") if isinstance(x, tuple) else x for x in segs)
+    if b["tmpl"]["verb"] is not None:
+        path += ":" + b["tmpl"]["verb"]
+    return match_path(b["tmpl"], path) is not None
+
+
 def check_error(ms, request, exc, message, reserved):
     """The client raised instead of sending.  -> [(what, signature)]"""
+    out = _check_error(ms, request, exc, message, reserved)
+    if out and all(sig is None for _, sig in out) and exc != "NotImplementedError":
+        binds = bindings_of(ms)
+        first = next((i for i, b in enumerate(binds) if spec_applies(b["tmpl"], request)), len(binds))
+        loose = [i for i, b in enumerate(binds) if i < first and loosely_applies(b, request)]
+        if loose:
+            b = binds[loose[0]]
+            return [(f"{what} [binding #{loose[0]} ({b['verb']} {b['uri']}) is taken although a path variable does not match its own "
+                     f"sub-template: the whole expanded uri is validated]", "http.path_value_crosses_segments") for what, _ in out]
+    return out
+
+
+def _check_error(ms, request, exc, message, reserved):
     binds = bindings_of(ms)
     if exc == "NotImplementedError":
         if binds and not ms["client_streaming"]:
